@@ -51,7 +51,9 @@ Not modelled: the on-the-fly projector `ForwardProjectorByBinUsingRayTracing` (h
 it shares no code with the matrix — compared on the implementation by the harness only), float rounding (the driver returns the exact value, the magnitude `Σ|terms|` and the number of terms;
 `checks/c04.py` applies the forward error bound), OpenMP, what a data processor computes (the harness installs its own
 exact-arithmetic processors: scaling, a symmetric 3-point stencil, one that fails), the
-geometry/modality `check()`s (error paths exercised by the harness as `err` only), the ray tracing itself.
+geometry/modality `check()`s (error paths exercised by the harness as `err` only), the ray tracing itself
+(`RayTraceVoxelsOnCartesianGrid`) — but the END POINTS between which `ray_trace_one_lor` traces (the part of the LOR inside
+the cylindrical or square field of view, ProjMatrixByBinUsingRayTracing.cxx:478-526) are: `squareChord`, `cylChordSq`.
 Core Lean only.
 -/
 namespace StirVerif.C04
@@ -442,4 +444,47 @@ def MatrixObj.rowNow (D : MatrixData G K) (m : MatrixObj G K) (bin : Bin) : Opti
   (m.getRow D bin).map (·.1)
 
 end Matrix
+
+/-! ### the part of a LOR inside the transaxial field of view (`ray_trace_one_lor`)
+
+`ray_trace_one_lor` (static, ProjMatrixByBinUsingRayTracing.cxx:451-592) parametrises the LOR of a bin as
+`X = s cos φ + a sin φ`, `Y = s sin φ − a cos φ` and finds `min_a`, `max_a` such that the end points lie on the border of the
+field of view: the cylinder of radius `fovrad_in_mm` (`restrict to cylindrical FOV := 1`, :481-500) or the square
+`|X|, |Y| ≤ fovrad_in_mm` (`:= 0`, :501-526).  The voxels between the two end points are then traced.  The arithmetic is
+transcribed exactly over `Rat` (every `float` is a rational; the rounding of the `float` operations is not modelled);
+`cos φ`, `sin φ` are inputs (the `float`s the code computed). -/
+
+/-- `sign(t)` of ProjMatrixByBinUsingRayTracing.cxx:443-448: `t < 0 ? -1 : 1` -/
+def sgn (t : Rat) : Rat := if t < 0 then -1 else 1
+
+/-- `fabs` -/
+def rabs (t : Rat) : Rat := if t < 0 then -t else t
+
+/-- the `double` constant `1.E-3` (`0x1.0624dd2f1a9fcp-10`) -/
+def milli : Rat := 1152921504606847 / 1152921504606846976
+
+/-- `min_a`, `max_a` of the general case of the square field of view (:519-521), every view angle:
+    `max_a = min((F sign(sφ) − s cφ)/sφ, (F sign(cφ) + s sφ)/cφ)`, `min_a = max((−F sign(sφ) − s cφ)/sφ, (−F sign(cφ) + s sφ)/cφ)` -/
+def squareEnds (fov s cphi sphi : Rat) : Rat × Rat :=
+  let a1 := (fov * sgn sphi - s * cphi) / sphi
+  let a2 := (fov * sgn cphi + s * sphi) / cphi
+  let b1 := (-fov * sgn sphi - s * cphi) / sphi
+  let b2 := (-fov * sgn cphi + s * sphi) / cphi
+  (if b1 ≤ b2 then b2 else b1, if a1 ≤ a2 then a1 else a2)
+
+/-- the square field of view (:501-526): `none` = `return` (the LOR gets no element), `some (min_a, max_a)` otherwise.
+    Views within `1.E-3` of a multiple of 90 degrees take the edges of the square; a chord shorter than a thousandth of a
+    voxel is dropped. -/
+def squareChord (fov s cphi sphi vx : Rat) : Option (Rat × Rat) :=
+  if rabs cphi < milli ∨ rabs sphi < milli then
+    if fov < rabs s then none else some (-fov, fov)
+  else
+    let e := squareEnds fov s cphi sphi
+    if e.1 > e.2 - milli * vx then none else some e
+
+/-- the cylindrical field of view (:481-500): `none` = `return`; otherwise `max_a² = fovrad² − s²` (`max_a` is its
+    `sqrt`, `min_a = −max_a`; for `|s| = fovrad` both are 0) -/
+def cylChordSq (fov s : Rat) : Option Rat :=
+  if rabs s > fov then none else some (fov * fov - s * s)
+
 end StirVerif.C04
